@@ -507,7 +507,7 @@ def choose_inputs(tier, seed):
             by.setdefault(p.split("/")[-2], []).append(p)
     for v in by.values():
         rng.shuffle(v)
-    want = 1500 if tier == "thorough" else 60          # x 2 variants = 120 parses (a small fixture costs 0.2-0.5 s of CPU to parse)
+    want = 750 if tier == "thorough" else 60          # x 2 variants = 120 parses (a small fixture costs 0.2-0.5 s of CPU to parse)
     files, k = [], 0
     dialects = sorted(by)
     while len(files) < want and any(by.values()):
